@@ -179,7 +179,6 @@ open_(['C08'], r'unsimplify\.exception\.(okay|vanished):\{[^}]*Aggregation[^}]*\
       repro='findings/C08_unsimplify_exception_aggregation.lp')
 open_(['C08'], r'postsolve\.(compl-row|dualsign|rcsign|compl-col)\.(okay|vanished):\{[^}]*RowSingleton[^}]*\}',
       'RowSingletonPS: the dual of a removed singleton row gets the wrong sign / is not complementary for a row that is one-sided in the original LP, or the reduced cost stays on the column although the bound it prices came from the singleton row and the original bound is infinite (minimal LP 4x4 with FixBounds, FixVariable, RowSingleton)', regex=True)
-open_(['C08'], 'verdict.UNBOUNDED-on-infeasible:{}', 'simplifier reports UNBOUNDED for an LP that is (primal) infeasible and dual infeasible')
 # --- file I/O
 open_(['C14', 'C12', 'C09'], r'(exception\.[A-Za-z]+\.XMPSWR02.*|leak:SoPlexBase::wri.*)', 'the MPS writer throws SPxInternalCodeException("XMPSWR02 This should never happen") for a free row (lhs=-inf, rhs=+inf) instead of writing it or returning false; the unscaled LP copy made by writeFile() leaks on that path', regex=True)
 # entries contributed by the delegated harness checks (one fragment per property, same format)
